@@ -46,7 +46,10 @@ pub enum AlphaSize {
     Full,
 }
 
-pub const FILTERS: [&str; 9] = [
+pub const FILTERS: [&str; 12] = [
+    "@..[?@==1]",
+    "@.*[?@==1]",
+    "count(@..*)>2",
     "@.a",
     "!@.a",
     "@==1",
